@@ -6,6 +6,8 @@ META = {
                 "pass 3: directories on a cycle of parents (never reported on this tree: C02 finding), real e2fsck_reconnect_file / fix_dotdot (cut), reconnect failures",
                 "expand_directory: indirect-mapped directories and index blocks (metadata callbacks), directories without block 0 (pass 2 repairs those; expand_dir_proc would "
                 "zero-fill logical block 0 instead of building a directory block), allocator failure, huge_file",
+                "process_bad_inode: deallocate_inode (cut in badinode_fix), the real device / symlink sub-checks (symbolic verdict, assumed equal in both runs), > 128-byte inodes; "
+                "rehash_quota: the entry stages and write_directory are cut (the new size is a symbolic block count), indirect / extent-tree blocks freed by the punch (not part of i_size) are not modelled",
                 "pass 4: EA-inode reference consolidation, > 128-byte inodes, failing reconnects; pass 5: bigalloc, BLOCK_UNINIT reconstruction by the loader (assumed to "
                 "mark no block that pass 1 does not mark)"],
 }
@@ -184,6 +186,23 @@ HARNESSES.append(
          backends=["default", "kissat"],
          bound="8 clusters of 4 blocks (bigalloc) / 1 block, 1 KiB blocks; extent-mapped directory of 1..4 blocks at symbolic physical blocks, "
                "1 or 2 blocks requested, block_found_map arbitrary elsewhere, allocator's choice symbolic"))
+HARNESSES.append(
+    dict(name="badinode_fix", src="badinode_fix.c", extra_src=["lib/ext2fs/blknum.c"],
+         funcs=["e2fsck_process_bad_inode", "ext2fs_file_acl_block", "ext2fs_file_acl_block_set", "ext2fs_blocks_count"],
+         cut_statics={"e2fsck/pass2.c": ["deallocate_inode"]},
+         unwind=4, unwindset=["main.%d:130" % i for i in range(6)] + ["fix_problem.0:16", "e2fsck_read_inode.0:130", "e2fsck_write_inode.0:130"],
+         backends=["default", "kissat"], cap_quick=300,
+         bound="one 128-byte inode, every byte symbolic; feature words, creator OS, first data block, 64-bit block count, block size 1-64 KiB and the "
+               "verdicts of pass 1's device/symlink sub-checks symbolic; e2fsck -y, then a second run of the real function on the written image"))
+HARNESSES.append(
+    dict(name="rehash_quota", src="rehash_quota.c",
+         funcs=["e2fsck_rehash_dir", "free_out_dir"],
+         cut_statics={"e2fsck/rehash.c": ["duplicate_search_and_fix", "copy_dir_entries", "calculate_tree", "write_directory"]},
+         configs=[{"ISIZE": 256}],
+         unwind=5, unwindset=["e2fsck_rehash_dir.0:4", "e2fsck_rehash_dir.1:5"],
+         backends=["default", "kissat"], cap_quick=300,
+         bound="directory of 4 blocks (block size 64) rebuilt into 0..8 blocks; inode number (all 2^32-1), revision, s_first_ino, the three quota inode "
+               "numbers, orphan-file inode number, i_flags, features, options, dir_size symbolic"))
 MANIFEST = {
     "text": "Kernel-level slice (partial). Bounded-exhaustive: (1) the fix_problem() protocol over every entry of the real problem_table, every "
             "latch state and flag word: 'no' un-marks valid unless PR_NO_OK, 'yes' sets PROBLEMS_FIXED unless PR_NOT_A_FIX, -n never fixes and "
@@ -203,8 +222,14 @@ MANIFEST = {
             "(11) e2fsck_expand_directory + expand_dir_proc (lost+found full / pass 3A), cluster ratio 1 and 4: exactly the requested blocks are appended as fresh empty directory "
             "blocks at bigalloc-aligned positions, i_size = mapped blocks * block size, i_blocks = clusters occupied by the final mapping (what pass 1 of the next run recomputes; a "
             "block inside an already owned cluster adds nothing), quota charged the same bytes, each new cluster allocated, accounted and marked exactly once (expanddir). "
+            "(12) e2fsck_process_bad_inode under -y on a fully symbolic 128-byte inode (badinode_fix): every field named by a raised problem is zero in the image handed to "
+            "e2fsck_write_inode, every other byte unchanged, the write happens exactly once iff a field problem was raised, never after a deallocation; the written image violates "
+            "no format predicate and a second run of the real function on it raises nothing and writes nothing; (13) e2fsck_rehash_dir (rehash_quota): when the rebuilt directory "
+            "is smaller, quota_data_sub is called once with exactly old size - new size for every directory pass 1 charged (root and every inode >= first_ino except the project-quota "
+            "file, the orphan file and EA inodes), and never otherwise (nothing freed, -n, other reserved inodes). "
             "Whole-run convergence of e2fsck -fy / -fn is outside.",
     "note": "Trusted: CBMC's C semantics; fix_problem stubbed to 'yes' in the kernels; the caller's dirent validity test restated from the format; "
             "find_problem cut to a slot-copying stub in fixproblem; the real find_problem is decided over the whole real table in harness find_problem "
-            "(right entry for every code, NULL otherwise, codes unique). check_ea_in_inode cut in harness extra (not separately decided).",
+            "(right entry for every code, NULL otherwise, codes unique). check_ea_in_inode cut in harness extra (not separately decided). "
+            "deallocate_inode cut in badinode_fix; write_directory and the entry stages cut in rehash_quota (decided in C05 rebuild / dupfix, C01 calctree).",
 }
